@@ -24,6 +24,8 @@ TEXTS = ["tell me about apple", "fig and apple", "what is kiwi", "pear", "apple"
          "caf\u00e9 apple", "cafe\u0301 apple", "\u00a0tell me about apple\u2003"]
 TEXT_VARIANT_PAIRS = [("caf\u00e9 apple", "cafe\u0301 apple"), ("Tell Me About Apple", "TELL ME ABOUT APPLE"),
                       ("fig and apple", "Fig And Apple"), ("pear", " pear"), ("what is kiwi", "what  is kiwi")]
+# requests on the two-graph state WORLDM: seed only g:surface / only g:aux / both (one or two seeds per graph)
+M_TEXTS = ["kiwi", "plum", "plum kiwi", "apple", "fig plum", "pear"]
 NOWS = ["2025-09-01T00:00:00Z", "2025-12-01T00:00:00Z"]
 AGENTS = ["A", "B"]
 
@@ -572,6 +574,12 @@ def gen_history(rng: random.Random, i: int) -> dict:
         ops.append({"op": "set", "dim": "text", "val": "tiny"})
     elif rng.random() < 0.5:
         ops.append({"op": "set", "dim": "text", "val": rng.choice(TEXTS)})
+    multi = nworlds == 11
+    if multi and rng.random() < 0.6:
+        # the shared slice budget binds on the two-graph state: start with one in force
+        sd = rng.choice(["slice_t1_pops", "slice_t1_pops", "slice_t1_iters"])
+        ops.append({"op": "set", "dim": sd, "val": rng.choice([1, 2, 3] if sd == "slice_t1_pops" else [0, 1, 2])})
+        ops.append({"op": "set", "dim": "text", "val": rng.choice(M_TEXTS)})
     nturn = rng.choice([2, 3, 3, 4, 5])
     last_sets: List[dict] = []
     case["_tail"] = rng.random() < 0.7
@@ -583,7 +591,10 @@ def gen_history(rng: random.Random, i: int) -> dict:
             break
         for _ in range(rng.choice([0, 1, 1, 1, 2])):
             r = rng.random()
-            if r < 0.45:
+            if multi and r < 0.3:
+                # which of the active graphs the request seeds (first only / second only / both)
+                ops.append({"op": "set", "dim": "text", "val": rng.choice(M_TEXTS)})
+            elif r < 0.45:
                 d = rng.choice(dims)
                 vals = CFG_DIMS[d][1] if d in CFG_DIMS else SPECIAL_DIMS[d]
                 o = {"op": "set", "dim": d, "val": copy.deepcopy(rng.choice(vals))}
@@ -721,6 +732,20 @@ def sweep_cases(full: bool = True) -> List[dict]:
                 if mut:
                     c["mutate_returned"] = True
                 out.append(c)
+    # slice budgets (ctx.slice_budgets t1_pops / t1_iters) are SHARED by the active graphs of one turn: a later graph runs
+    # under what the earlier ones left, so the same graph with the same seeds and the same etag runs under different
+    # remainders from turn to turn, depending on which of the graphs before it the request seeds.  Every ordered pair of
+    # requests over {first graph only, second graph only, both} x every slice value, on the long-lived T1 cache, plus the
+    # return to the first request (a hit must equal the fresh run under the CURRENT remainder)
+    for mode in (("t1_lru", "t1_bytes", "all_lru") if full else ("t1_lru",)):
+        for sd, sv in [("slice_t1_pops", v) for v in (1, 2, 3)] + [("slice_t1_iters", v) for v in (0, 1)]:
+            for a in M_TEXTS:
+                for b in M_TEXTS:
+                    if a == b:
+                        continue
+                    mid = [txt(b), {"op": "turn", "w": W_M}, txt(a)]
+                    out.append(hist(mode, mid, pre=[{"op": "set", "dim": sd, "val": sv}, txt(a)],
+                                    nworlds=W_M + 1, first_w=W_M, second_w=W_M))
     # NON-DECIDING diagnostic (value sharing): the SAME request repeated while the caller edits the result containers it
     # was handed — outside the property's alphabet; reported as a note only
     for mode in ("t1_lru", "t2_lru", "turn"):
